@@ -116,7 +116,7 @@ def gen_design(rnd, kind, n_poses, n_lm, closures, noisy):
         odo(a, b, spd(cd))
     for j, l in enumerate(lms):
         for a in rnd.sample(range(n_poses), min(2, n_poses)):
-            off = (step(), G.rnd(rnd))
+            off = (step() if rnd.random() < 0.7 else [0] * d, G.rnd(rnd))       # (also pure-rotation offsets: zero translation, rotated)
             po = G.comp(poses[a], off)
             z = G.rot(G.inv(po[1]), [x - y for x, y in zip(l, po[0])])
             edges.append(dict(cls='lm', vs=[a + 1, n_poses + j + 1], tz=z, rz=[], toff=list(off[0]), roff=list(off[1]), W=spd(d)))
@@ -142,4 +142,7 @@ def gen_design(rnd, kind, n_poses, n_lm, closures, noisy):
             W = spd(d)
             for sg in (1, -1):
                 edges.append(dict(cls='lm', vs=[a + 1, n_poses + j + 1], tz=[x + sg * y for x, y in zip(z, n)], rz=[], toff=list(off[0]), roff=list(off[1]), W=W))
+    # some landmarks are held fixed at their true position (this does not move the optimum of the others)
+    if n_lm >= 2 and rnd.random() < 0.6:
+        verts[n_poses + rnd.randrange(n_lm - 1)]['fixed'] = True
     return dict(fixFirst=True, verts=verts, edges=edges, gradOnly=True, conv='canon', noisy=bool(noisy))
